@@ -12,6 +12,16 @@ LONG_STR_QUOTES = repr('she said "yes" and "no" and "maybe" but it\'s all the sa
 LONG_STR_QUOTES2 = repr("it's 'single' heavy and isn't \"double\" heavy at all, that's how it's meant to be, y'all")
 LONG_BYTES_QUOTES = repr(b'she said "yes" and "no" and "maybe" but it\'s all the same to them in the end, isn\'t it')
 
+LONG_BYTES_PUNCT = "b'alpha/beta/gamma/delta/epsilon/zeta/eta/theta/iota/kappa/lambda/mu/nu/xi/omicron/pi/rho--sigma::tau'"
+LONG_BYTES_HIGH = "b'" + '\\xe9t\\xe9/' * 14 + "fin'"
+
+# values that are equal (and hash alike) but must print differently, side by side
+CONFUSABLE = [
+    '[0.0, -0.0]', '[-0.0, 0.0]', '{0.0: -0.0, 1: True}', '(1, True, 1.0)',
+    '[1, 1.0, True, 0, False, 0.0, -0.0]', "['a', b'a', 'a']", '[(1,), (1.0,), (True,)]',
+    '{1: [1.0], 2: [True], 3: [1]}', "[10**20, 1e20, float(10**20)]",
+]
+
 # dicts whose keys are mutually comparable but of mixed type / out of order
 SORTED_DICTS = [
     "{2: 'a', 1.5: 'b', -1: 'c', 0.5: 'd'}",
@@ -123,13 +133,15 @@ def corpus(tier, seed):
             out.append(('sk:' + sk + ':' + src[:40], src))
     # long strings in every context
     for lf in (LONG_STR, LONG_BYTES, LONG_STR_NOSPACE, LONG_STR_PUNCT, LONG_BYTES_BIN,
-               LONG_STR_QUOTES, LONG_STR_QUOTES2, LONG_BYTES_QUOTES):
+               LONG_STR_QUOTES, LONG_STR_QUOTES2, LONG_BYTES_QUOTES, LONG_BYTES_PUNCT, LONG_BYTES_HIGH):
         for sk in ('_', '[_]', "[_, 'x']", "{_: 1}", "{'k': _}", "(_,)", "{'k': [_]}"):
-            if tier == 'quick' and lf not in (LONG_STR, LONG_BYTES, LONG_STR_QUOTES) and sk not in ("[_, 'x']", '_'):
+            if tier == 'quick' and lf not in (LONG_STR, LONG_BYTES, LONG_STR_QUOTES, LONG_BYTES_PUNCT) and sk not in ("[_, 'x']", '_'):
                 continue
             out.append(('long:' + sk + ':' + lf[:12], fill_holes(sk, [lf])))
     for src in SORTED_DICTS:
         out.append(('sorted:' + src[:40], src))
+    for src in CONFUSABLE:
+        out.append(('confusable:' + src[:40], src))
     if tier == 'thorough':
         # larger random trees (may end INCOMPLETE)
         for k in range(40):
